@@ -45,6 +45,9 @@ type failure struct {
 type sample struct {
 	Tx       c06lib.TxCase `json:"tx"`
 	Observed [][2]string   `json:"observed"` // rule 100's matched (key, value) inside the concurrent run
+	SetStart []int         `json:"set_start"`
+	SetAfter []int         `json:"set_after"`
+	WafSet   []int         `json:"waf_set"`
 }
 
 type auditDirect struct {
@@ -226,6 +229,17 @@ func main() {
 			if v == 0 {
 				expected100[i] = o.Matched[100]
 				audited[i] = auditSize() > before
+				// ALONE = on a WAF nobody else has used (the sequential pass on the shared WAF already
+				// recycles the objects of earlier transactions)
+				if fw, err := c06lib.NewWAF(c06lib.Directives("", 0)); err == nil {
+					if oa, err := c06lib.RunTx(fw, "", c); err == nil {
+						if oa.String() != o.String() {
+							fail("outcome-differs-from-alone", fmt.Sprintf("transaction #%d of the sequential pass on the shared WAF differs from the same transaction alone on a fresh WAF:\n got   %s\n alone %s", i, o.String(), oa.String()), c)
+						}
+						expected[0][i] = oa.String()
+					}
+					_ = fw.Close()
+				}
 			}
 		}
 		if v > 0 {
@@ -323,7 +337,7 @@ func main() {
 							if m == nil {
 								m = [][2]string{}
 							}
-							res.Samples = append(res.Samples, sample{cases[idx], m})
+							res.Samples = append(res.Samples, sample{cases[idx], m, o.SetStart, o.SetAfter, o.WafSet})
 						}
 						sampleMu.Unlock()
 					}
